@@ -14,7 +14,7 @@ pub fn def() -> CheckDef {
         meta: CheckMeta {
             id: "C13",
             level: "exploration",
-            rule: "orchestrations of 2-3 worker processes on one path (file existing or not yet created); each worker opens the database, reads all marker keys, commits its own marker, holds the database for a generated time and closes. Generated: start order and offsets (0-40 ms), hold times (0-25 ms), and per worker an optional gate at a libc boundary (before open64, after open64 returned, before / after the file-size query (statx), the 1st/2nd write of the creator, fsync, mmap64, close) at which the LD_PRELOAD shim parks the process until the orchestrator releases it; all gate choices x release orders for two processes; for three: structured chains (A parked while holding, B queued behind it, C started only after A or B was released and has closed) and seeded samples. A worker that does not reach its gate within a timeout is taken to be waiting for the kernel lock and the orchestrator moves on: timing decides which interleaving is produced, never the verdict. Oracle from CLOCK_MONOTONIC timestamps taken by the workers (open returned / about to close): the intervals are pairwise disjoint; every worker sees the marker of every worker whose interval ended before its own began; every worker exits 0 (an Err or panic from open is a failure to wait); each worker also churns a bucket of its own and runs DB::check(); in a third of the cases a worker also reads its own file through a second descriptor while it holds the database (a backup copy or size probe, which must not let the next opener in); and after all have closed the file must still hold every marker and every worker's data and pass the independent parser. Non-trivial = orchestration in which a second open was issued while another process held the database or was creating it. Distinct = hash of the orchestration.",
+            rule: "orchestrations of 2-3 worker processes on one path (file existing or not yet created); each worker opens the database, reads all marker keys, commits its own marker, holds the database for a generated time and closes. Generated: start order and offsets (0-40 ms), hold times (0-25 ms), and per worker an optional gate at a libc boundary (before open64, after open64 returned, before / after the file-size query (statx), the 1st/2nd write of the creator, fsync, mmap64, close) at which the LD_PRELOAD shim parks the process until the orchestrator releases it; all gate choices x release orders for two processes; for three: structured chains (A parked while holding, B queued behind it, C started only after A or B was released and has closed) and seeded samples. A worker that does not reach its gate within a timeout is taken to be waiting for the kernel lock and the orchestrator moves on: timing decides which interleaving is produced, never the verdict. Oracle from CLOCK_MONOTONIC timestamps taken by the workers (open returned / about to close): the intervals are pairwise disjoint; every worker sees the marker of every worker whose interval ended before its own began; every worker exits 0 (an Err or panic from open is a failure to wait); each worker also churns a bucket of its own and runs DB::check(); in a third of the cases a worker also reads its own file through a second descriptor while it holds the database (a backup copy or size probe, which must not let the next opener in), and in a quarter a worker clones its handle, drops the original and goes on with the clone; and after all have closed the file must still hold every marker and every worker's data and pass the independent parser. Non-trivial = orchestration in which a second open was issued while another process held the database or was creating it. Distinct = hash of the orchestration.",
             assumptions: &[
                 "flock itself is a raw syscall invisible to the shim; its effect is observed",
                 "three processes are sampled, not enumerated",
@@ -37,6 +37,9 @@ pub struct ProcSpec {
     /// while it holds the database the process reads the file through a second descriptor
     #[serde(default)]
     pub peek: bool,
+    /// the process clones its database handle, drops the original and goes on with the clone
+    #[serde(default)]
+    pub clone_drop: bool,
 }
 
 #[derive(Serialize, Deserialize, Clone, Debug, PartialEq, Eq, Hash)]
@@ -74,12 +77,21 @@ pub fn worker(args: &[String]) -> i32 {
     let id: usize = args[2].parse().unwrap_or(0);
     let hold: u64 = args[3].parse().unwrap_or(0);
     let out = &args[4];
-    let peek = args.get(5).map(|a| a == "peek").unwrap_or(false);
+    let peek = args.iter().skip(5).any(|a| a == "peek");
+    // the database handle is cloned and the original dropped at once; the clone is used from then on
+    let clone_drop = args.iter().skip(5).any(|a| a == "clone");
     let mut rep = ProcReport { id, ..Default::default() };
     rep.t_call = now_ns();
     let r = catch(|| -> Result<(), String> {
         let db = jammdb::OpenOptions::new().pagesize(1024).num_pages(16).open(&db_path).map_err(|e| format!("open: {}", e))?;
         rep.t_open = now_ns();
+        let db = if clone_drop {
+            let c = db.clone();
+            drop(db);
+            c
+        } else {
+            db
+        };
         {
             let tx = db.tx(true).map_err(|e| e.to_string())?;
             {
@@ -170,6 +182,9 @@ pub fn run_case(case: &C13Case, dir: &Path) -> Result<Orchestration, Failure> {
         cmd.arg("worker").arg("proc").arg(&db).arg(i.to_string()).arg(p.hold_ms.to_string()).arg(&outp);
         if p.peek {
             cmd.arg("peek");
+        }
+        if p.clone_drop {
+            cmd.arg("clone");
         }
         cmd.env("LD_PRELOAD", &shim).env("JV_SHIM_DB", &db).env("RUST_BACKTRACE", "0").env_remove("JV_SHIM_LOG");
         cmd.stdout(Stdio::null()).stderr(Stdio::null());
@@ -389,8 +404,8 @@ fn shard(ctx: &ShardCtx, known: &Known) -> ShardOut {
                     cases.push(C13Case {
                         file_exists: exists,
                         procs: vec![
-                            ProcSpec { gate: g0.clone(), hold_ms: rng.below(20) as u32, start_delay_ms: 0, start_after_release_of: None, peek: k % 3 == 0 },
-                            ProcSpec { gate: g1.clone(), hold_ms: rng.below(20) as u32, start_delay_ms: rng.below(5) as u32, start_after_release_of: None, peek: k % 5 == 0 },
+                            ProcSpec { gate: g0.clone(), hold_ms: rng.below(20) as u32, start_delay_ms: 0, start_after_release_of: None, peek: k % 3 == 0, clone_drop: k % 4 == 1 },
+                            ProcSpec { gate: g1.clone(), hold_ms: rng.below(20) as u32, start_delay_ms: rng.below(5) as u32, start_after_release_of: None, peek: k % 5 == 0, clone_drop: k % 7 == 2 },
                         ],
                         release: if order == 0 { vec![0, 1] } else { vec![1, 0] },
                     });
@@ -411,9 +426,9 @@ fn shard(ctx: &ShardCtx, known: &Known) -> ShardOut {
                     cases.push(C13Case {
                         file_exists: exists,
                         procs: vec![
-                            ProcSpec { gate: ga.to_string(), hold_ms: 5, start_delay_ms: 0, start_after_release_of: None, peek },
-                            ProcSpec { gate: gb.to_string(), hold_ms: 60, start_delay_ms: 0, start_after_release_of: None, peek },
-                            ProcSpec { gate: String::new(), hold_ms: 5, start_delay_ms: 0, start_after_release_of: Some(after), peek: false },
+                            ProcSpec { gate: ga.to_string(), hold_ms: 5, start_delay_ms: 0, start_after_release_of: None, peek, clone_drop: !peek && after == 1 },
+                            ProcSpec { gate: gb.to_string(), hold_ms: 60, start_delay_ms: 0, start_after_release_of: None, peek, clone_drop: !peek && after == 1 },
+                            ProcSpec { gate: String::new(), hold_ms: 5, start_delay_ms: 0, start_after_release_of: Some(after), peek: false, clone_drop: false },
                         ],
                         release: vec![0, 1, 2],
                     });
@@ -434,6 +449,7 @@ fn shard(ctx: &ShardCtx, known: &Known) -> ShardOut {
                 start_delay_ms: rng.below(40) as u32 * (i > 0) as u32,
                 start_after_release_of: if i == 2 && rng.chance(1, 2) { Some(rng.below(2) as usize) } else { None },
                 peek: rng.chance(1, 3),
+                clone_drop: rng.chance(1, 4),
             })
             .collect();
         let mut release: Vec<usize> = (0..n).collect();
